@@ -185,10 +185,10 @@ struct OffsetAndSize {
 }
 
 impl OffsetAndSize {
-    fn new(chunk: &ChunkMut) -> Self {
+    fn new(chunk: &ChunkMut, size: usize) -> Self {
         Self {
             offset: chunk.offset.as_value(),
-            size: chunk.size(),
+            size,
         }
     }
 }
@@ -273,8 +273,8 @@ impl<Service: service::Service> PublisherSharedState<Service> {
             None => (),
             Some(history) => {
                 let history = unsafe { &mut *history.get() };
-                self.sender.borrow_chunk(chunk.offset());
-                match history.push_with_overflow(OffsetAndSize::new(chunk)) {
+                let (_, chunk_size) = self.sender.borrow_chunk(chunk.offset());
+                match history.push_with_overflow(OffsetAndSize::new(chunk, chunk_size)) {
                     None => (),
                     Some(old) => self
                         .sender
